@@ -117,8 +117,16 @@ def _decode_for(spec, T, tname):
 
 def run_one(x_spec, tname, flags, entry):
     import utype
-    opts = entries.make_options(flags)
-    T = target_type(tname, flags)
+    if "__class_attrs__" in flags:
+        # the flags given the other documented way: as class attributes of an Options subclass
+        opts = type("FlagOptions", (utype.Options,), dict(flags["__class_attrs__"]))()
+        flags = dict(flags["__class_attrs__"])
+        T = target_type(tname, None)
+        if tname == "data":
+            T = type("TwoFields", (utype.Schema,), {"__annotations__": {"a": int, "b": str}, "b": "", "__module__": "vf.entries", "__qualname__": "TwoFields", "__options__": opts})
+    else:
+        opts = entries.make_options(flags)
+        T = target_type(tname, flags)
     x = _decode_for(x_spec, T, tname)
     if entry == "transform":
         return oracle.reject_raw(oracle.outcome(utype.type_transform, x, T, opts))
@@ -305,6 +313,26 @@ def judge_pair(x_spec, tname, entry):
             same = o[0] == base[0] and (o[0] != "ok" or ((tname == "data" or type(o[1]) is type(base[1])) and oracle.equal(oracle.plain(o[1]), oracle.plain(base[1]))))
             if not same:
                 fails.append((f"explicit-false-flags-differ-from-no-flags/{tname}", {"with_false_flags": oracle.short(o[1]), "without": oracle.short(base[1])}))
+    if tname in ("tuple2", "data", "tuple", "int", "date", "union:int|list"):
+        # flags set as class attributes of an Options subclass mean the same as flags passed to Options(...)
+        for fname in ("ndl", "both"):
+            o = run_one(x_spec, tname, {"__class_attrs__": dict(FLAGSETS[[n for n, _ in FLAGSETS].index(fname)][1])}, entry)
+            b = res[fname]
+            if o[0] in ("ok", "perr") and b[0] in ("ok", "perr") and not _unstable(_decode_for(x_spec, None, "plain"), o[1] if o[0] == "ok" else None):
+                same = o[0] == b[0] and (o[0] != "ok" or ((tname == "data" or type(o[1]) is type(b[1])) and oracle.equal(oracle.plain(o[1]), oracle.plain(b[1]))))
+                if not same:
+                    fails.append((f"flags-as-class-attributes-differ-from-flags-as-arguments/{fname}/{tname}",
+                                  {"as_class_attributes": oracle.short(o[1]), "as_arguments": oracle.short(b[1])}))
+    if tname == "tuple2":
+        # "extra tuple items ... are rejected" under no_data_loss - also when the option set names an addition policy itself
+        # (a function with **kwargs parses with Options(addition=...) merged in)
+        xx = _decode_for(x_spec, None, "plain")
+        if isinstance(xx, (list, tuple)) and len(xx) > 2:
+            for extra in ({"addition": True}, {"addition": "int"}):
+                o = run_one(x_spec, tname, dict({"no_data_loss": True}, **extra), entry)
+                if o[0] == "ok":
+                    fails.append((f"no_data_loss/extra-tuple-items-accepted-next-to-an-addition-policy/{tname}", {"options": dict({"no_data_loss": True}, **extra), "result": codec.encode(o[1])}))
+                    break
     info = {"accepted": {k: v[0] == "ok" for k, v in res.items()}}
     if any(v[0] in ("other", "hang") for v in res.values()):
         info["other"] = True
